@@ -39,6 +39,12 @@ type Meta struct {
 
 // TokenReader satisfies the xmlstream.Marshaler interface.
 func (m *Meta) TokenReader() xml.TokenReader {
+	// The hash is optional; the zero value has no hash to write (and
+	// HashOutput.TokenReader panics if the hash function is not set).
+	var hash xml.TokenReader
+	if m.Hash.Hash != 0 || len(m.Hash.Out) > 0 {
+		hash = m.Hash.TokenReader()
+	}
 	return xmlstream.Wrap(
 		xmlstream.MultiReader(
 			xmlstream.Wrap(
@@ -65,7 +71,7 @@ func (m *Meta) TokenReader() xml.TokenReader {
 					Name: xml.Name{Local: "size"},
 				},
 			),
-			m.Hash.TokenReader(),
+			hash,
 			xmlstream.Wrap(
 				xmlstream.Token(xml.CharData(strconv.FormatUint(m.Width, 10))),
 				xml.StartElement{
